@@ -638,8 +638,39 @@ fn raw_literal_after(src: &str, marker: &str) -> Option<String> {
     Some(rest[..j].to_string())
 }
 
-/// `None` when the source no longer has the expected shape (reported as `rx=nopattern`).
+/// all raw string literals `r"..."` of a source text
+fn raw_literals(src: &str) -> Vec<String> {
+    let mut v = Vec::new();
+    let mut rest = src;
+    while let Some(i) = rest.find("r\"") {
+        let after = &rest[i + 2..];
+        match after.find('"') {
+            Some(j) => { v.push(after[..j].to_string()); rest = &after[j + 1..]; }
+            None => break,
+        }
+    }
+    v
+}
+
+/// Fallback when `from_pgn` was restructured (e.g. patterns moved into constants): pick the literals by content.
+fn pgn_patterns_by_content(src: &str) -> Option<PgnPatterns> {
+    let lits = raw_literals(src);
+    let moves = lits.iter().find(|l| l.contains("O-O") && l.contains("[a-h]"))?;
+    let result = lits.iter().find(|l| l.contains("1/2-1/2") && l.contains("1-0") && !l.contains("O-O"))?;
+    let splitter = lits.iter().find(|l| l.contains("\\n") && l.contains("{2,}"))?;
+    Some(PgnPatterns {
+        splitter: regex::Regex::new(splitter).ok()?,
+        moves: regex::Regex::new(moves).ok()?,
+        result: regex::Regex::new(result).ok()?,
+    })
+}
+
+/// `None` when the source no longer has a recognisable shape (reported as `rx=nopattern`).
 pub fn pgn_patterns() -> Option<PgnPatterns> {
+    pgn_patterns_exact().or_else(|| std::fs::read_to_string("/repo/src/games.rs").ok().and_then(|s| pgn_patterns_by_content(&s)))
+}
+
+fn pgn_patterns_exact() -> Option<PgnPatterns> {
     let src = std::fs::read_to_string("/repo/src/games.rs").ok()?;
     let fp = src.find("pub fn from_pgn")?;
     let body = &src[fp..];
